@@ -223,6 +223,44 @@ Fixpoint drop_trailing_empty (l : list (list bytes)) : list (list bytes) :=
                  | r' => x :: r'
                  end
   end.
+(* col.go:Cols / Cols.Rows / GetCols.  Cols marshals the cached worksheet as it stands (no trimming): every cell of
+   every row is a <c> element.  For column c (0-based here) the iterator walks the rows; at every cell element it pads
+   the result with "" up to the row before the current one, and at the cell of column c it appends that cell's value
+   unless it is empty (after fix d3b3ff2: an empty cell is left to later padding, so the result does not depend on
+   whether empty cells are still in the worksheet or have been trimmed by a save): a row without cells adds nothing,
+   a row whose cells stop before column c only causes the padding. *)
+Fixpoint col_fold (value_of : cell -> bytes) (c : nat) (rs : list row) (k : nat) (acc : list bytes) : list bytes :=
+  match rs with
+  | [] => acc
+  | r :: rest =>
+    let acc' := match r_cells r with
+                | [] => acc
+                | _ => let a1 := acc ++ repeat [] (k - length acc) in
+                       match nth_error (r_cells r) c with
+                       | Some cl => if is_nil (value_of cl) then a1 else a1 ++ [value_of cl]
+                       | None => a1
+                       end
+                end in
+    col_fold value_of c rest (S k) acc'
+  end.
+(* the number of columns is the highest column of a cell with content (a <v>, <f> or <is> child), after fix 874bc46 *)
+Definition has_content (c : cell) : bool := negb (is_nil (c_v c)) || (match c_f c with Some _ => true | None => false end).
+Fixpoint last_content (cs : list cell) (i : nat) : nat :=
+  match cs with [] => 0%nat | c :: rest => Nat.max (if has_content c then S i else 0%nat) (last_content rest (S i)) end.
+Definition total_cols (sh : sheet) : nat := fold_left (fun m r => Nat.max m (last_content (r_cells r) 0)) (rows sh) 0%nat.
+(* trailing empty values of a column are dropped (fix 1st of the Cols repairs: how far a column is padded depends on
+   empty cells that a save trims) *)
+Fixpoint drop_trailing_nil (l : list bytes) : list bytes :=
+  match l with
+  | [] => []
+  | x :: rest => match drop_trailing_nil rest with
+                 | [] => if is_nil x then [] else [x]
+                 | r => x :: r
+                 end
+  end.
+Definition get_cols (value_of : cell -> bytes) (sh : sheet) : list (list bytes) :=
+  map (fun c => drop_trailing_nil (col_fold value_of c (rows sh) 0 [])) (seq 0 (total_cols sh)).
+
 Definition get_rows (value_of : cell -> bytes) (sh : sheet) : list (list bytes) :=
   drop_trailing_empty (map (row_values value_of) (xml_rows sh)).
 
